@@ -84,6 +84,28 @@ static int use_main_queue, opt_payload, opt_finalizers, opt_mainloop;
 extern int _dispatch_get_main_queue_handle_4CF(void);
 extern void _dispatch_main_queue_callback_4CF(void *msg);
 static int trap_q = -1, trap_on = -1, trap_kind;
+// conckeys = N > 1: the queue-specific values of every custom queue (tag key included) are installed by N threads at the same time, queue by
+// queue, so that the very first dispatch_queue_set_specific calls on a fresh queue race each other (the lazily created head)
+static int opt_conckeys;
+static char DUMMYKEYS[4];
+static struct { int q, key; long val; } KINST[MAXQ * (NKEYS + 1)];
+static int nkinst;
+static pthread_barrier_t kbar;
+static void keydtor_f(void *c);
+static void *key_installer(void *arg) {
+	long j = (long)arg;
+	my_tid = (uint32_t)(56 + j);
+	for (int q = 0; q < MAXQ; q++) {
+		if (!QD[q].used || QD[q].kind == 2 || QD[q].kind == 3) continue;
+		pthread_barrier_wait(&kbar);
+		// every thread's first call on this queue finds no head yet (or loses the race to install it); the dummy keys are never read
+		dispatch_queue_set_specific(Q[q], &DUMMYKEYS[j], (void *)(long)(7000 + j), NULL);
+		int n = 0;
+		for (int i = 0; i < nkinst; i++) if (KINST[i].q == q && (n++ % opt_conckeys) == j)
+			dispatch_queue_set_specific(Q[q], &KEYS[KINST[i].key], (void *)KINST[i].val, KINST[i].key < NKEYS && opt_finalizers ? keydtor_f : NULL);
+	}
+	return NULL;
+}
 
 // plain (non-atomic) payloads for the memory-visibility clauses of C05
 static uint64_t REC[MAXOP][4];
@@ -476,6 +498,7 @@ static int load_program(const char *path) {
 				else if (!strcmp(k, "payload")) opt_payload = (int)v;
 				else if (!strcmp(k, "finalizers")) opt_finalizers = (int)v;
 				else if (!strcmp(k, "mainloop")) opt_mainloop = (int)v;
+				else if (!strcmp(k, "conckeys")) opt_conckeys = (int)v;
 				else if (!strcmp(k, "trapq")) trap_q = (int)v;
 				else if (!strcmp(k, "trapon")) trap_on = (int)v;
 				else if (!strcmp(k, "trapkind")) trap_kind = (int)v;
@@ -541,7 +564,8 @@ static int create_objects(const char *path) {
 		}
 		if (!Q[i]) { fprintf(stderr, "queue %d not created\n", i); return -1; }
 		if (QD[i].kind != 2) {
-			if (QD[i].kind != 3 || 1) dispatch_queue_set_specific(Q[i], &KEYS[NKEYS], (void *)(long)(i + 1), NULL);
+			if (opt_conckeys > 1 && QD[i].kind != 3) { KINST[nkinst].q = i; KINST[nkinst].key = NKEYS; KINST[nkinst].val = i + 1; nkinst++; }
+			else dispatch_queue_set_specific(Q[i], &KEYS[NKEYS], (void *)(long)(i + 1), NULL);
 		}
 		if (QD[i].kind != 2 && QD[i].kind != 3) {
 			atomic_store(&QD[i].apprefs, 1);
@@ -564,14 +588,25 @@ static int create_objects(const char *path) {
 	FILE *f = fopen(path, "r"); char line[512];
 	while (fgets(line, sizeof line, f)) {
 		int q, key, tokid; long val;
-		if (sscanf(line, "k %d %d %ld", &q, &key, &val) == 3)
-			dispatch_queue_set_specific(Q[q], &KEYS[key], (void *)val, opt_finalizers ? keydtor_f : NULL);
+		if (sscanf(line, "k %d %d %ld", &q, &key, &val) == 3) {
+			if (opt_conckeys > 1 && QD[q].kind != 2 && QD[q].kind != 3 && nkinst < (int)(sizeof KINST / sizeof KINST[0])) { KINST[nkinst].q = q; KINST[nkinst].key = key; KINST[nkinst].val = val; nkinst++; }
+			else dispatch_queue_set_specific(Q[q], &KEYS[key], (void *)val, opt_finalizers ? keydtor_f : NULL);
+		}
 		else if (sscanf(line, "inactive_tok %d %d", &q, &tokid) == 2) {
 			tok_create(tokid, TKK_ACTIVATE, q, -1);
 			if (tokid > ntok_max) ntok_max = tokid;
 		}
 	}
 	fclose(f);
+	if (opt_conckeys > 1) {
+		if (opt_conckeys > 4) opt_conckeys = 4;
+		pthread_t kt[4];
+		pthread_barrier_init(&kbar, 0, (unsigned)opt_conckeys);
+		for (long j = 0; j < opt_conckeys; j++) pthread_create(&kt[j], 0, key_installer, (void *)j);
+		for (int j = 0; j < opt_conckeys; j++) pthread_join(kt[j], 0);
+		pthread_barrier_destroy(&kbar);
+		logev(EV_NOTE, -1, 78, nkinst);
+	}
 	return 0;
 }
 
